@@ -16,7 +16,8 @@ def generate(rng, tier, idx):
     path = "/sim/d/images.json"
     for cycle in range(rng.randint(1, 3)):
         ops.append({"op": "dump", "path": path})
-        ops.append({"op": "restart", "path": path, "via": pick(rng, ["path", "handle", "loads"]), "offset": rng.randint(0, 3000)})
+        if rng.random() < 0.8:      # else: the live object goes on being used after it was written
+            ops.append({"op": "restart", "path": path, "via": pick(rng, ["path", "handle", "loads"]), "offset": rng.randint(0, 3000)})
         if cycle == 0:
             for _ in range(rng.randint(0, 3)):
                 ops.append(gen_im.valid_mutation(K, rng))
